@@ -39,38 +39,66 @@ def _dims(case):
     return N, R, H
 
 
-def _tensor(seqs, width, batch_first):
-    t = torch.tensor(seqs, dtype=torch.long).reshape(len(seqs), width)
+def _tensor(seqs, width, batch_first, dtype=torch.long):
+    t = torch.tensor(seqs, dtype=dtype).reshape(len(seqs), width)
     return t if batch_first else t.t().contiguous()
+
+
+# ---- robustness dimension: integer dtype of each token tensor (notes/AUDIT_GUIDE.md, "dtype combination") ----------
+# name -> (smallest id, largest id, bits).  A case may carry dtypes = [ref dtype, hyp dtype]; absent = int64 for both.
+DTYPES = {"uint8": (0, 255, 8), "int8": (-128, 127, 8), "int16": (-2 ** 15, 2 ** 15 - 1, 16),
+          "int32": (-2 ** 31, 2 ** 31 - 1, 32), "int64": (-2 ** 63, 2 ** 63 - 1, 64)}
+
+
+def _fits(v, dt):
+    return DTYPES[dt][0] <= v <= DTYPES[dt][1]
+
+
+def _case_dtypes(case):
+    return tuple(case.get("dtypes") or ("int64", "int64"))
+
+
+def _eos_wraps_onto_token(case):
+    """the one signature of the dtype dimension that the unchanged code gets wrong (reported, corpus/C01/*.pending):
+    an eos that is NOT representable in a tensor's dtype while that tensor holds a token congruent to it modulo
+    2^bits - `tok.eq(eos)` converts the python scalar to the tensor's dtype, wrapping it onto that token"""
+    if case["eos"] is None:
+        return False
+    for which, dt in zip(("ref", "hyp"), _case_dtypes(case)):
+        if not _fits(case["eos"], dt):
+            mod = 2 ** DTYPES[dt][2]
+            if any((t - case["eos"]) % mod == 0 for s_ in case[which] for t in s_):
+                return True
+    return False
 
 
 # ---- robustness dimensions: memory layout, entry point, call history, aliasing ---------------------
 LAYOUTS = ("contig", "t", "offset", "step", "expand")
 
 
-def _tensor_l(seqs, width, batch_first, layout, junk=0):
+def _tensor_l(seqs, width, batch_first, layout, junk=0, dtype=torch.long):
     """the same logical tensor as _tensor, in another memory layout (all legal inputs):
     't' = storage of the other batch layout, viewed transposed; 'offset' = interior slice of a larger buffer (storage
     offset, padded rows); 'step' = every 2nd row / 3rd column of a larger buffer; 'expand' = one sequence broadcast
     over the batch with stride 0 (only when all sequences are equal)"""
     n = len(seqs)
     if layout in (None, "contig") or n == 0 or width == 0:
-        return _tensor(seqs, width, batch_first)
-    base = torch.tensor(seqs, dtype=torch.long).reshape(n, width)
+        return _tensor(seqs, width, batch_first, dtype)
+    base = torch.tensor(seqs, dtype=dtype).reshape(n, width)
     want = base if batch_first else base.t()
     rows, cols = want.shape
     if layout == "t":
         return want.t().contiguous().t()
     if layout == "offset":
-        buf = torch.full((rows + 2, cols + 3), junk, dtype=torch.long)
+        buf = torch.full((rows + 2, cols + 3), junk, dtype=dtype)
         buf[1:1 + rows, 2:2 + cols] = want
         return buf[1:1 + rows, 2:2 + cols]
     if layout == "step":
-        buf = torch.full((2 * rows + 1, 3 * cols + 1), junk, dtype=torch.long)
+        buf = torch.full((2 * rows + 1, 3 * cols + 1), junk, dtype=dtype)
         buf[1::2, 1::3] = want
         return buf[1::2, 1::3]
     if layout == "expand":
-        e = torch.tensor(seqs[0], dtype=torch.long).reshape(1, width).expand(n, width)
+        e = torch.tensor(seqs[0], dtype=dtype).reshape(1, width).expand(n, width)
         return e if batch_first else e.t()
     raise ValueError(layout)
 
@@ -125,6 +153,10 @@ def _fn(case, norm=None):
         return torch.jit.script(Mod(*o.values()))
     if entry == "trace":
         ex = torch.full((1, 1), 0 if case["eos"] is None else case["eos"], dtype=torch.long)
+        if case.get("dtypes"):  # traced on example inputs of the dtypes it is then called with
+            return torch.jit.trace(Mod(*o.values()), tuple(
+                torch.full((1, 1), case["eos"] if case["eos"] is not None and _fits(case["eos"], dt) else 0,
+                           dtype=getattr(torch, dt)) for dt in _case_dtypes(case)))
         return torch.jit.trace(Mod(*o.values()), (ex, ex))
     if entry == "script_fn":
         f = torch.jit.script(Fn)
@@ -188,8 +220,11 @@ def run_impl(case, norm=None):
         bf = case["batch_first"]
         lay = case.get("layout") or ("contig", "contig")
         junk = 0 if case["eos"] is None else case["eos"]
-        ref = _tensor_l(case["ref"], R, bf, lay[0], junk)
-        hyp = ref if (case.get("alias") and case["ref"] == case["hyp"]) else _tensor_l(case["hyp"], H, bf, lay[1], junk)
+        dts = _case_dtypes(case)
+        jr, jh = (junk if _fits(junk, dt) else 0 for dt in dts)
+        ref = _tensor_l(case["ref"], R, bf, lay[0], jr, getattr(torch, dts[0]))
+        hyp = ref if (case.get("alias") and case["ref"] == case["hyp"]) else _tensor_l(
+            case["hyp"], H, bf, lay[1], jh, getattr(torch, dts[1]))
         with warnings.catch_warnings():
             warnings.simplefilter("ignore")
             fn = _fn(case, norm)
@@ -365,6 +400,14 @@ def in_space(case):
             return False
     if case.get("alias") and (case["ref"] != case["hyp"]):
         return False  # the same tensor object is handed over for both arguments
+    if case.get("dtypes"):
+        dts = _case_dtypes(case)
+        if case.get("alias") and dts[0] != dts[1]:
+            return False
+        if any(not _fits(t, dt) for which, dt in zip(("ref", "hyp"), dts) for s_ in case[which] for t in s_):
+            return False  # a tensor only holds ids of its dtype
+        if _eos_wraps_onto_token(case):
+            return False  # reported defect of the unchanged code, kept as corpus/C01/*.json.pending
     lay = case.get("layout") or ("contig", "contig")
     for which, l in zip(("ref", "hyp"), lay):
         if l == "expand" and (any(x != case[which][0] for x in case[which]) or case.get("history")):
@@ -410,7 +453,10 @@ def metamorphic(case, out, rng):
             i = seq.index(case["eos"])
             return list(seq[: i + 1]) + [rng.choice([case["eos"], 0, 1, 5, -3]) for _ in seq[i + 1:]]
         c2 = dict(case, ref=[refill(s) for s in case["ref"]], hyp=[refill(s) for s in case["hyp"]])
-        if c2["ref"] != case["ref"] or c2["hyp"] != case["hyp"]:
+        if case.get("dtypes"):  # the filler has to be representable in the tensor's dtype
+            for which, dt in zip(("ref", "hyp"), _case_dtypes(case)):
+                c2[which] = [[t if _fits(t, dt) else case["eos"] for t in s_] for s_ in c2[which]]
+        if (c2["ref"] != case["ref"] or c2["hyp"] != case["hyp"]) and in_space(c2):
             o2 = run_impl(c2)
             if o2 != out:
                 fails.append(("changing tokens after the first eos changes the result", c2, o2))
@@ -444,6 +490,13 @@ def metamorphic(case, out, rng):
     oM = run_impl(cM)
     if oM != out:
         fails.append(("functional and module forms disagree", cM, oM))
+    # (6) the same ids handed over as int64 tensors give the same result (a sequence is its ids, not its storage type)
+    if case.get("dtypes") and _case_dtypes(case) != ("int64", "int64"):
+        cD = {k: v for k, v in case.items() if k != "dtypes"}
+        oD = run_impl(cD)
+        if oD != out:
+            fails.append(("the same token ids in tensors of dtypes %s and as int64 tensors give different results"
+                          % "/".join(_case_dtypes(case)), cD, oD))
     return fails
 
 
@@ -839,6 +892,122 @@ def gen_block(chk, n):
     return cases
 
 
+def _reps(x, m, dt):
+    """the ids congruent to x modulo 2^m that a tensor of dtype dt can hold (x itself first)"""
+    return [v for v in (x, x + 2 ** m, x - 2 ** m, x + 2 * 2 ** m, x - 2 * 2 ** m, x + 3 * 2 ** m) if _fits(v, dt)]
+
+
+def gen_dtype_mix(chk, n):
+    """dtype combinations of the two token tensors (uint8 / int8 / int16 / int32 / int64 in every pairing, both
+    directions, and equal) with ids beyond the narrower range: the alphabet is a few residue classes modulo 2^m
+    (m = 8 / 16 / 32, at least the width of the narrower dtype), each tensor holds the representatives of a class
+    that fit ITS dtype - so a token of the wider tensor is frequently congruent to, but different from, the token
+    of the narrower tensor it is aligned with (263 vs 7 under uint8, x + 2^16 under int16, x + 2^32 under int32; 200 vs
+    -56 for uint8 vs int8), and likewise congruent to the eos without being it.  Any conversion of one tensor to the
+    other's (or a fixed narrower) dtype, instead of comparing after type promotion, identifies such ids.  The eos is
+    absent, representable in both dtypes, or representable in one of them only (that tensor then simply has no eos).
+    Every entry point, layout and call history of the other streams; judged by the same check_ed / check_prefix terms
+    on the ids (the model's tokens are integers)."""
+    rng = chk.rng
+    names = list(DTYPES)
+    cases = []
+    for i in range(n):
+        u = rng.random()
+        if u < 0.05:
+            dr = dh = "int64"
+        elif u < 0.10:
+            dr = dh = rng.choice(names[:4])
+        else:
+            dr, dh = rng.sample(names, 2)
+            if i % 4 == 0 and DTYPES[dr][2] > DTYPES[dh][2]:
+                dr, dh = dh, dr  # the narrower reference a little more often than the narrower hypothesis
+        br, bh = DTYPES[dr][2], DTYPES[dh][2]
+        narrow = dr if (br < bh or (br == bh and rng.random() < 0.5)) else dh
+        nb, wb = min(br, bh), max(br, bh)
+        ms = [b for b in (8, 16, 32) if nb <= b < wb] or ([nb] if nb < 64 else [8, 16, 32])
+        m = ms[0] if rng.random() < 0.7 else rng.choice(ms)
+        lo, hi = (DTYPES[narrow][0], DTYPES[narrow][1]) if nb < 64 else (-300, 300)
+        lo, hi = max(lo, -2 ** (m - 1)), min(hi, 2 ** m - 1)
+        pool = [x for x in (0, 1, 2, 7, -1, -2, -56, lo, lo + 1, hi, hi - 1, 100, 127, 128, 200) if lo <= x <= hi]
+        V = rng.randint(1, 3)
+        xs = []
+        while len(xs) < V + 1:  # V token classes + the class of the eos, pairwise incongruent modulo 2^min(nb, m)
+            x = rng.choice(pool) if rng.random() < 0.7 else rng.randint(lo, hi)
+            if all((x - y) % 2 ** min(nb, m) for y in xs):
+                xs.append(x)
+        reps = {dt: [_reps(x, m, dt) for x in xs] for dt in (dr, dh)}
+        eos_kind = rng.choice(["none", "both", "both", "both", "one", "one"])
+        eos = None
+        if eos_kind != "none":
+            cand = sorted(set(reps[dr][V]) | set(reps[dh][V]))
+            both = [v for v in cand if _fits(v, dr) and _fits(v, dh)]
+            one = [v for v in cand if v not in both]
+            eos = rng.choice(both if (eos_kind == "both" and both) or not one else one)
+        p_alias = rng.choice([0.15, 0.5, 0.85])
+
+        def alphabet(dt):
+            a = [c for c in range(V) if reps[dt][c]]
+            if eos is not None and _fits(eos, dt) and [v for v in reps[dt][V] if v != eos]:
+                a.append(V + 1)  # an ordinary token that is congruent to the eos
+            return a or [0]
+
+        def value(c, dt):
+            if c == V:
+                return eos
+            r = [v for v in reps[dt][V] if v != eos] if c == V + 1 else reps[dt][c]
+            return r[0] if rng.random() >= p_alias else rng.choice(r)
+
+        N, R, H = rng.randint(1, 4), rng.randint(1, 6), rng.randint(1, 6)
+        er = V if eos is not None and _fits(eos, dr) else None
+        eh = V if eos is not None and _fits(eos, dh) else None
+        ar, ah = alphabet(dr), alphabet(dh)
+        ref_c = [_rand_seq(rng, R, ar, er, 0.25) for _ in range(N)]
+        hyp_c = []
+        for r in ref_c:
+            if rng.random() < 0.7:
+                body = [c for c in _cut(r, er, False) if c in ah]
+                hyp_c.append(_mutate(rng, body + ([eh] if eh is not None else []), ah, eh, H))
+            else:
+                hyp_c.append(_rand_seq(rng, H, ah, eh, 0.25))
+        api = rng.choice(["ed", "prefix", "prefix"])
+        c = dict(api=api, module=rng.random() < 0.3, ref=[[value(t, dr) for t in s_] for s_ in ref_c],
+                 hyp=[[value(t, dh) for t in s_] for s_ in hyp_c], eos=eos, dtypes=[dr, dh],
+                 include_eos=rng.random() < 0.5, norm=rng.random() < 0.3, batch_first=rng.random() < 0.5,
+                 exclude_last=(api == "prefix" and rng.random() < 0.5), costs=_rand_costs(rng),
+                 padding=rng.choice(PADS), warn=rng.random() < 0.2, kw=rng.random() < 0.5)
+        c = _decorate(rng, c, p_exotic=0.0)
+        if c.get("alias"):  # one tensor object for both arguments: one dtype (hyp is a copy of ref)
+            c["dtypes"] = [dr, dr]
+        c["stream"] = "dtype-mix"
+        cases.append(c)
+    return cases
+
+
+def _py_lev(r, h, ci, cd, cs):
+    row = [j * cd for j in range(len(r) + 1)]
+    for t in h:
+        new = [row[0] + ci]
+        for j in range(1, len(r) + 1):
+            new.append(min(row[j] + ci, new[j - 1] + cd, row[j - 1] + (0 if r[j - 1] == t else cs)))
+        row = new
+    return row[-1]
+
+
+def _alias_sensitive(case):
+    """histogram only: would identifying ids that are congruent modulo 2^8 / 2^16 / 2^32 change some pair's distance
+    (or where a sequence ends)?"""
+    for m in (8, 16, 32):
+        f = lambda t: t % 2 ** m
+        e = None if case["eos"] is None else f(case["eos"])
+        for r, h in zip(case["ref"], case["hyp"]):
+            a, b = _cut(r, case["eos"], case["include_eos"]), _cut(h, case["eos"], case["include_eos"])
+            a2 = _cut([f(t) for t in r], e, case["include_eos"])
+            b2 = _cut([f(t) for t in h], e, case["include_eos"])
+            if _py_lev(a, b, *case["costs"]) != _py_lev(a2, b2, *case["costs"]) or len(b) != len(b2):
+                return True
+    return False
+
+
 def gen_cases(chk):
     cases = gen_exhaustive(chk)
     for c in load_corpus("C01"):
@@ -855,6 +1024,7 @@ def gen_cases(chk):
     cases += gen_numeric(chk, 1200 if thorough else 120)
     cases += gen_long(chk, 28 if thorough else 5, 21 if thorough else 3, big=(513, 1025) if thorough else (513,))
     cases += gen_block(chk, 48 if thorough else 12)
+    cases += gen_dtype_mix(chk, 3000 if thorough else 300)
     return [c for c in cases if in_space(c)]
 
 
@@ -879,6 +1049,11 @@ def _cands(case):
     for key in ("history", "alias", "entry", "layout", "ids"):
         if case.get(key):
             yield {k: v for k, v in case.items() if k != key}
+    if case.get("dtypes"):
+        yield {k: v for k, v in case.items() if k != "dtypes"}
+        for j in (0, 1):
+            if case["dtypes"][j] != "int64":
+                yield dict(case, dtypes=[("int64" if k == j else d) for k, d in enumerate(case["dtypes"])])
     for n in range(N):
         if N > 1:
             yield dict(case, ref=case["ref"][:n] + case["ref"][n + 1:], hyp=case["hyp"][:n] + case["hyp"][n + 1:])
@@ -975,7 +1150,11 @@ def run(chk, cases=None):
                         "differ by > 1e-3 relative) and then compared exactly",
                         "long-ref stream: each pair is judged on the canonicalised input (alone, reference cut after its "
                         "first eos) - the model's cost is cubic in the padded width",
-                        "tokens are int64 ('a long tensor' in the docs); other integer dtypes are not exercised",
+                        "tokens are int64 ('a long tensor' in the docs) except in the dtype-mix stream: ref and hyp as uint8 / "
+                        "int8 / int16 / int32 / int64 tensors in every pairing, ids congruent modulo 2^8 / 2^16 / 2^32 across "
+                        "the two tensors; an eos that is not representable in a tensor's dtype while that tensor holds an id "
+                        "congruent to it modulo 2^bits is excluded (the unchanged code wraps the scalar: "
+                        "corpus/C01/dtype_eos_wraps_onto_token.json.pending); float token tensors are not exercised",
                         "zero-width tensors are in the input space only without eos (with eos _lens_from_eos raises)",
                         "the batch dimension of the model is a map over columns; independence of the vectorised code across "
                         "the batch is covered by the correspondence and the single-column metamorphic relation"]
@@ -1009,6 +1188,14 @@ def run(chk, cases=None):
         for key in ("history", "alias", "ids", "numeric"):
             if c.get(key):
                 chk.count(key + "=" + str(c[key]))
+        if c.get("dtypes"):
+            chk.count("dtypes=" + "/".join(c["dtypes"]))
+            bits = [DTYPES[d][2] for d in c["dtypes"]]
+            chk.count("dtypes:" + ("ref narrower" if bits[0] < bits[1] else "hyp narrower" if bits[1] < bits[0] else "same width"))
+            if c["eos"] is not None and not all(_fits(c["eos"], d) for d in c["dtypes"]):
+                chk.count("dtypes: eos representable in one tensor only")
+            if _alias_sensitive(c):
+                chk.count("dtypes: result changes if ids congruent mod 2^8/2^16/2^32 are identified")
         if c.get("scale"):
             chk.count("scale=%d" % c["scale"])
         if c["eos"] is not None and c["include_eos"] and N > 1:
@@ -1031,7 +1218,7 @@ def run(chk, cases=None):
     meta_n = 0
     meta_fail = []
     OLD = ("random", "corpus")
-    NEW = ("eos-mix", "sparse-defaults", "entry-layout", "numeric", "long-ref", "long-hyp", "block-boundary")
+    NEW = ("eos-mix", "sparse-defaults", "entry-layout", "numeric", "long-ref", "long-hyp", "block-boundary", "dtype-mix")
     for i, c in enumerate(cases):
         if c.get("long") or c.get("slow") or not _exact_scale(c) or (c.get("entry") in JIT and not replaying):
             continue
